@@ -48,7 +48,25 @@ type cShared struct {
 	t0    *merlin.Transcript
 	xpriv *x25519.PrivateKey
 	xpub  *x25519.PublicKey
+	enc   [][]byte // wire encodings that every task parses from the same backing arrays
 }
+
+// indices into cShared.enc
+const (
+	encSrSig = iota // .. encSrSig+cNumKeys-1
+	encSrPub = encSrSig + cNumKeys + iota - 1
+	encSrSec
+	encSrKp
+	encSrMini
+	encEdPt
+	encRisPt
+	encWide
+	encProof
+	encXScalar
+	encXPoint
+	encCanon
+	encCount
+)
 
 func newCShared() *cShared {
 	sh := &cShared{}
@@ -95,17 +113,45 @@ func newCShared() *cShared {
 	if sh.xpub, sh.xpriv, err = x25519.GenerateKey(NewDetReader(5)); err != nil {
 		panic(err)
 	}
+	sh.enc = make([][]byte, encCount)
+	must := func(b []byte, err error) []byte {
+		if err != nil {
+			panic(err)
+		}
+		return b
+	}
+	for i := 0; i < cNumKeys; i++ {
+		sh.enc[encSrSig+i] = must(sh.ssigs[i].MarshalBinary())
+	}
+	sh.enc[encSrPub] = must(sh.spk.MarshalBinary())
+	sh.enc[encSrSec] = must(sh.skp.SecretKey().MarshalBinary())
+	sh.enc[encSrKp] = must(sh.skp.MarshalBinary())
+	mini := sha512.Sum512_256([]byte("c18c mini secret"))
+	sh.enc[encSrMini] = mini[:]
+	sh.enc[encEdPt] = edBytes(&P)
+	sh.enc[encRisPt] = risBytes(&RP)
+	wide := sha512.Sum512([]byte("c18c wide"))
+	sh.enc[encWide] = wide[:]
+	sh.enc[encProof] = ecvrf.Prove(sh.priv[0], sh.msgs[0])
+	xs := sha512.Sum512_256([]byte("c18c x25519 scalar")) // deliberately unclamped
+	xs[0] |= 7
+	xs[31] |= 0x80
+	sh.enc[encXScalar] = xs[:]
+	sh.enc[encXPoint] = clone(sh.xpub[:])
+	sh.enc[encXPoint][31] |= 0x80 // high bit set: must be masked in a copy, not in place
+	sh.enc[encCanon] = must(scal(4242).MarshalBinary())
 	return sh
 }
 
-const cNumOps = 24
+const cNumOps = 25
 
 var cOpNames = [cNumOps]string{"ed.Sign", "ed.Verify", "ed.VerifyExpanded(shared key)", "cache.Verifier.Verify(shared)", "ed.Batch(shared expanded keys)",
 	"x25519.X25519(Basepoint)", "sr.Sign+Verify(shared ctx,keypair)", "ecvrf.Prove+Verify", "h2c.XOF(shared shake)", "ed.Sign(hedged,selfverify)",
 	"ed.NewKeyFromSeed", "x25519.EdKeyConversions", "curve.MulBasepoint(shared user table)", "curve.ExpandedDoubleScalarMul(shared)", "ristretto.MulBasepoint+Expanded(shared)",
 	"merlin.Clone(shared origin)", "sr.Batch(shared keys)", "x25519.DH(shared keys)", "curve.MultiscalarMulVartime(package tables)", "h2c.XMD+ristretto",
 	"ed.Sign(hedged, entropy reader fails)", "curve.MultiscalarMulVartime(>=190 terms: Pippenger)", "ed.VerifyBatchOnly(>=95 entries: Pippenger)",
-	"default entropy (nil readers): GenerateKey, hedged Sign, batch Verify"}
+	"default entropy (nil readers): GenerateKey, hedged Sign, batch Verify",
+	"decoders over shared wire encodings (sr25519, curve, scalar, x25519, ecvrf)"}
 
 func scal(i int) *scalar.Scalar {
 	d := sha512.Sum512([]byte{'s', byte(i), byte(i >> 8)})
@@ -299,6 +345,8 @@ func (sh *cShared) op(kind, i int) []byte {
 		ssig, serr := sh.skp.Sign(nil, sh.sctx.NewTranscriptBytes(sh.msgs[k]))
 		out = append(out, bb(sok), bb(serr == nil && sh.spk.Verify(sh.sctx.NewTranscriptBytes(sh.msgs[k]), ssig)))
 		return out
+	case 24:
+		return sh.decodeShared(i)
 	case 20:
 		// a fault in one call must not poison later calls: the reader fails after i%32 bytes
 		s, err := sh.priv[k].Sign(&failingReader{left: i % 32}, sh.msgs[k], &ed25519.Options{AddedRandomness: true, Context: "ctx"})
@@ -317,6 +365,131 @@ func (sh *cShared) op(kind, i int) []byte {
 		}
 		return append(edBytes(p), risBytes(q)...)
 	}
+}
+
+// decodeShared parses the shared wire encodings with every decoder of the public API
+// and returns the re-encodings: inputs are read-only to a decoder, so any number of
+// callers may parse the same bytes at once.
+func (sh *cShared) decodeShared(i int) []byte {
+	var out []byte
+	add := func(b []byte, err error) {
+		if err != nil {
+			out = append(out, []byte("error:"+err.Error())...)
+		}
+		out = append(out, b...)
+		out = append(out, '|')
+	}
+	k := i % cNumKeys
+	if sig, err := sr25519.NewSignatureFromBytes(sh.enc[encSrSig+k]); err != nil {
+		add(nil, err)
+	} else {
+		add(sig.MarshalBinary())
+		out = append(out, bb(sh.spk.Verify(sh.sctx.NewTranscriptBytes(sh.msgs[k]), sig)))
+	}
+	var sig2 sr25519.Signature
+	if err := sig2.UnmarshalBinary(sh.enc[encSrSig+(k+1)%cNumKeys]); err != nil {
+		add(nil, err)
+	} else {
+		add(sig2.MarshalBinary())
+	}
+	if pk, err := sr25519.NewPublicKeyFromBytes(sh.enc[encSrPub]); err != nil {
+		add(nil, err)
+	} else {
+		add(pk.MarshalBinary())
+	}
+	if sk, err := sr25519.NewSecretKeyFromBytes(sh.enc[encSrSec]); err != nil {
+		add(nil, err)
+	} else {
+		add(sk.MarshalBinary())
+		add(sk.PublicKey().MarshalBinary())
+	}
+	if kp, err := sr25519.NewKeyPairFromBytes(sh.enc[encSrKp]); err != nil {
+		add(nil, err)
+	} else {
+		add(kp.MarshalBinary())
+	}
+	if msk, err := sr25519.NewMiniSecretKeyFromBytes(sh.enc[encSrMini]); err != nil {
+		add(nil, err)
+	} else {
+		add(msk.ExpandUniform().MarshalBinary())
+		add(msk.ExpandEd25519().MarshalBinary())
+	}
+	if sk, err := sr25519.NewSecretKeyFromEd25519Bytes(sh.enc[encWide]); err != nil {
+		add(nil, err)
+	} else {
+		add(sk.MarshalBinary())
+	}
+	var ep curve.EdwardsPoint
+	if err := ep.UnmarshalBinary(sh.enc[encEdPt]); err != nil {
+		add(nil, err)
+	} else {
+		add(edBytes(&ep), nil)
+	}
+	var cy curve.CompressedEdwardsY
+	if _, err := cy.SetBytes(sh.enc[encEdPt]); err != nil {
+		add(nil, err)
+	} else {
+		add(cy[:], nil)
+	}
+	var rp curve.RistrettoPoint
+	if err := rp.UnmarshalBinary(sh.enc[encRisPt]); err != nil {
+		add(nil, err)
+	} else {
+		add(risBytes(&rp), nil)
+	}
+	if _, err := rp.SetUniformBytes(sh.enc[encWide]); err != nil {
+		add(nil, err)
+	} else {
+		add(risBytes(&rp), nil)
+	}
+	var mp curve.MontgomeryPoint
+	if _, err := mp.SetBytes(sh.enc[encXPoint]); err != nil {
+		add(nil, err)
+	} else {
+		add(mp[:], nil)
+	}
+	var sc scalar.Scalar
+	if _, err := sc.SetBytesModOrderWide(sh.enc[encWide]); err != nil {
+		add(nil, err)
+	} else {
+		add(sc.MarshalBinary())
+	}
+	if _, err := sc.SetBytesModOrder(sh.enc[encXScalar]); err != nil {
+		add(nil, err)
+	} else {
+		add(sc.MarshalBinary())
+	}
+	if _, err := sc.SetBits(sh.enc[encSrMini]); err != nil {
+		add(nil, err)
+	} else {
+		var b [32]byte
+		sc.ToBytes(b[:])
+		add(b[:], nil)
+	}
+	if _, err := sc.SetCanonicalBytes(sh.enc[encCanon]); err != nil {
+		add(nil, err)
+	} else {
+		add(sc.MarshalBinary())
+	}
+	if err := sc.UnmarshalBinary(sh.enc[encCanon]); err != nil {
+		add(nil, err)
+	} else {
+		add(sc.MarshalBinary())
+	}
+	add(ecvrf.ProofToHash(sh.enc[encProof]))
+	ok, beta := ecvrf.Verify(sh.pub[0], sh.enc[encProof], sh.msgs[0])
+	add(append(beta, bb(ok)), nil)
+	add(x25519.X25519(sh.enc[encXScalar], sh.enc[encXPoint]))
+	var dst, in, base [32]byte
+	copy(in[:], sh.enc[encXScalar])
+	copy(base[:], sh.enc[encXPoint])
+	x25519.ScalarMult(&dst, &in, &base)
+	add(dst[:], nil)
+	if _, err := ed25519.NewExpandedPublicKey(sh.enc[encEdPt]); err != nil {
+		add(nil, err)
+	}
+	add(ed25519.NewKeyFromSeed(sh.enc[encSrMini]), nil)
+	return out
 }
 
 var (
@@ -338,7 +511,7 @@ func init() {
 		Property: "C18",
 		Phase:    "C: whole-library race freedom inside the deterministic schedule",
 		Variants: []string{"instr-race"},
-		Rule: "per run: 3..6 tasks x 3..8 operations over 20 operation kinds of the public API, all tasks sharing freshly built objects (expanded public keys, a user-built base-point table, expanded points, one caching verifier over the real LRU, one sr25519 context and key pair, one pre-absorbed SHAKE prototype, one Merlin transcript that every task clones, x25519.Basepoint, the package tables); -race build with raw-syscall token hand-off; " +
+		Rule: "per run: 3..6 tasks x 3..8 operations over 25 operation kinds of the public API (incl. every decoder parsing the same shared wire encodings), all tasks sharing freshly built objects (expanded public keys, a user-built base-point table, expanded points, one caching verifier over the real LRU, one sr25519 context and key pair, one pre-absorbed SHAKE prototype, one Merlin transcript that every task clones, x25519.Basepoint, the package tables); -race build with raw-syscall token hand-off; " +
 			"oracle: zero race reports and each result byte-identical to the same call executed alone on a pristine twin of the shared objects; non-trivial = at least two tasks and two context switches; distinct = distinct event-log digests",
 		Real: []string{"the whole library (ed25519, cache, ecvrf, x25519, sr25519, merlin, h2c, curve, scalar)", "Go race detector"},
 		Stub: []string{"goroutine scheduler (rt, raw pipe hand-off)", "entropy: deterministic readers"},
@@ -389,7 +562,7 @@ func runC18C(e *Env, r *core.Run) {
 			if focus < cNumOps && t.W(2) == 0 {
 				o.kind = focus
 			}
-			if o.kind >= 21 && t.W(3) != 2 {
+			if o.kind >= 21 && o.kind <= 23 && t.W(3) != 2 {
 				o.kind = t.W(21) // the two Pippenger-sized operations are expensive: keep one in three
 			}
 			scripts[i] = append(scripts[i], o)
@@ -470,5 +643,11 @@ func runC18C(e *Env, r *core.Run) {
 	tw.Read(b)
 	if !bytes.Equal(a, b) {
 		r.Fail("shared-object-mutated", "shake-prototype", "the caller's SHAKE prototype changed state after being passed to h2c")
+	}
+	// so must the wire encodings every task parsed
+	for i := range sh.enc {
+		if !bytes.Equal(sh.enc[i], cRef.enc[i]) {
+			r.Fail("shared-object-mutated", "wire-encoding", "shared encoding %d was changed by a decoder: %s, was %s", i, core.Hex8(sh.enc[i]), core.Hex8(cRef.enc[i]))
+		}
 	}
 }
